@@ -77,8 +77,8 @@ vbi_unpar			(uint8_t *		p,
 		uint8_t c = *p;
 
 		/* if 0 == (inv_par[] & 32) set msb of r. */
-		r |= ~ _vbi_hamm24_inv_par[0][c]
-			<< (sizeof (int) * CHAR_BIT - 1 - 5);
+		r |= (int)((unsigned int) ~ _vbi_hamm24_inv_par[0][c]
+			   << (sizeof (int) * CHAR_BIT - 1 - 5));
 
 		*p++ = c & 127;
 	}
